@@ -2,7 +2,7 @@
 # tools/try_seed_scratch.sh <patch.diff> <ID> [<ID>...]: like try_seed.sh, but inside /tmp/scr (see scratch_setup.sh)
 set -u
 PATCH="$1"; shift
-SCR=/tmp/scr
+SCR="${SCR:-/tmp/scr}"
 cd $SCR/verif || exit 2
 git -C $SCR/repo checkout -q -- . ; git -C $SCR/repo clean -fdq -e target -e Cargo.lock >/dev/null 2>&1
 git -C $SCR/repo apply "$PATCH" || { echo "patch does not apply"; exit 2; }
